@@ -20,7 +20,8 @@ def hole_after(tmpl, anchor):
     items = tmpl[2]
     for i, it in enumerate(items):
         if it[0] == 'tok' and (' ' + it[1]).endswith(' ' + anchor) and i + 1 < len(items):
-            return items[i + 1]
+            nx = items[i + 1]
+            return ('hole', nx[1], E.plain_idents(nx[2])) + tuple(nx[3:]) if nx[0] == 'hole' else nx
     return None
 
 
